@@ -60,6 +60,13 @@ func runC16(c *fw.Case) {
 	withAdvisors := r.Intn(2) == 0
 	withValidatorsType := r.Intn(5) > 0
 	namesTaken := r.Intn(6) == 0
+	// the monitors that borrow this staging (C05, C11, C17) are after what the upgrade does when
+	// it does split the validators pool: three quarters of their states make sure it does
+	favourSplit := c.Property != "C16" && r.Intn(4) > 0
+	if favourSplit {
+		withOwner, withValidatorsPool, withValidatorsType = true, true, true
+		withAdvisors = r.Intn(4) > 0
+	}
 	c.Describe(nOwners, withOwner, withValidatorsPool, withAdvisors, withValidatorsType, namesTaken)
 
 	// ---- vesting types and pools (staged through genesis in the new format, rewritten below) ----
@@ -118,7 +125,11 @@ func runC16(c *fw.Case) {
 		accs = append(accs, chain.GenAccount{Account: authtypes.NewBaseAccount(oaddr, nil, 0, 0)})
 		avp := &vesttypes.AccountVestingPools{Owner: v120.ValidatorsVestingPoolOwner}
 		if withValidatorsPool {
-			switch r.Intn(6) {
+			pick := r.Intn(6)
+			if favourSplit && pick < 2 {
+				pick = 2 + r.Intn(4)
+			}
+			switch pick {
 			case 0:
 				valLocked = big.NewInt(0)
 			case 1:
